@@ -241,6 +241,7 @@ def run(ctx):
     ok = kernel_setup(ctx)
     if ok:
         ctx.build_props()
+        ctx.build_props("Props/C03r.vo")  # the conditional density of the linear parameters over the reals
     else:
         ctx.obligations += 1
     specs = load_corpus("C03") + gen_cases(ctx)
